@@ -234,4 +234,64 @@ inline void async_programs(const vf::opts &o, vf::report &R, uint64_t programs) 
     }
 }
 
+// ---------------------------------------------------------------------------------------------
+// start(promise) racing with another thread that invokes the same promise: exactly one of them claims it. Either the coroutine is
+// started (body runs once, its result reaches the future, the competing call reports false) or it stays unstarted (start reports
+// false, the body never runs, the future holds the competitor's value); the frame and its arguments are destroyed exactly once.
+struct c4r_round {
+    cocls::future<int> fut;
+    std::optional<cocls::promise<int>> prom;
+    std::optional<cocls::async<int>> coro;
+    std::atomic<int> body_runs{0};
+    int start_ok = -1, call_ok = -1;
+};
+inline cocls::async<int> c4r_body(c4r_round &X, tracked arg) {
+    X.body_runs.fetch_add(1, std::memory_order_relaxed);
+    co_return (int)arg.id;
+}
+inline void async_start_race(const vf::opts &o, vf::report &R, vf::team &T, uint64_t rounds) {
+    using namespace cocls::verif;
+    static const int sites[] = {prom_claim_pre, prom_claim_post, fut_set_post, aw_chain_pre, fin_pre_resolve};
+    vf::rng master(vf::mix(o.seed, 0x104));
+    for (uint64_t rn = 0; rn < rounds && R.nviol() < 5; rn++) {
+        uint64_t rseed = master.next();
+        vf::rng r(rseed);
+        long live0 = tracked::live.load(), bad0 = tracked::bad.load();
+        auto Xp = std::make_unique<c4r_round>();
+        c4r_round &X = *Xp;
+        X.prom.emplace(X.fut.get_promise());
+        X.coro.emplace(c4r_body(X, tracked(777)));
+        int how = (int)r.below(3);
+        std::string plan = T.plan(r, sites, 5);
+        std::string desc = std::string("start(promise) vs ") + (how == 0 ? "value" : how == 1 ? "exception" : "drop");
+        vf::set_crash_ctx(R.prop.c_str(), "async_start_race", o.seed, rn, (desc + "; " + plan).c_str());
+        T.round([&](int tid) {
+            vf::start_offset(rseed, tid);
+            if (tid == 0) X.start_ok = (bool)X.coro->start(*X.prom);
+            else if (tid == 1) X.call_ok = how == 0 ? (bool)(*X.prom)(5) : how == 1 ? (bool)(*X.prom)(vf::make_exc(9)) : (bool)(*X.prom)(cocls::drop);
+        });
+        X.coro.reset(); // an unstarted coroutine is destroyed here
+        X.prom.reset();
+        R.cases++;
+        std::string err;
+        outcome got; got.state = PS_PENDING;
+        if (X.fut.ready()) got = read_future(X.fut, nullptr, 0);
+        if (X.start_ok + X.call_ok != 1) err = "start(promise) reported " + std::to_string(X.start_ok) + " and the competing call reported " + std::to_string(X.call_ok) + " (exactly one must claim the promise)";
+        else if (X.start_ok) {
+            if (X.body_runs.load() != 1) err = "coroutine started but its body ran " + std::to_string(X.body_runs.load()) + " times";
+            else if (!(got.state == PS_VALUE && got.val == 777)) err = "coroutine started but the future holds " + got.str();
+        } else {
+            outcome want; if (how == 0) { want.state = PS_VALUE; want.val = 5; } else if (how == 1) { want.state = PS_EXC; want.code = 9; } else want.state = PS_CANCELED;
+            if (X.body_runs.load() != 0) err = "start(promise) reported false (promise already claimed) but the body ran";
+            else if (!(got == want)) err = "competitor won but the future holds " + got.str();
+        }
+        if (err.empty() && (tracked::live.load() != live0 || tracked::bad.load() != bad0)) err = "coroutine argument not destroyed exactly once";
+        if (!err.empty()) { R.violation("monitor:async|async_start_race", err, vf::jobj().kv("round", (unsigned long long)rn).kv("seed", (unsigned long long)o.seed).kv("desc", desc).kv("stall_plan", plan).kv("future", got.str()).kv("body_runs", X.body_runs.load()).str()); if (!X.fut.ready()) (void)Xp.release(); continue; }
+        R.nontrivial_cases++;
+        R.sig(desc + (X.start_ok ? " coroutine-won" : " call-won") + (T.stalls_fired_last_round() ? " S" : ""));
+        R.cls(X.start_ok ? "coroutine_won_the_promise" : "competing_call_won_the_promise");
+        if (R.samples.size() < 2) R.sample(vf::jobj().kv("round", desc).kv("start_reported", X.start_ok).kv("call_reported", X.call_ok).kv("future", got.str()).str());
+    }
+}
+
 } // namespace scn
